@@ -87,6 +87,7 @@ pub fn check_instant_budget(oh: &Oh, ast: Option<&OpeningHoursExpression>, t: Na
         // the cost down; when it runs out the claim is checked through a bounded window instead.
         let far = expected.is_none() && horizon < end;
         if far {
+            opening_hours::verif_hooks::reset_ticks();
             opening_hours::verif_hooks::arm_budget(opening_hours::verif_hooks::Site::DayStep, far_steps);
         }
         opening_hours::verif_hooks::record_skips(true);
